@@ -61,6 +61,8 @@ pub fn abs_keys(name: &str) -> (Vec<Abs>, u8) {
             ],
             3,
         ),
+        // a chain of nested prefixes 0^i for every length 0..=8 (needs an 8-bit type): paths of width+1 nodes
+        "chain8" => ((0..=8u8).map(|i| (0u32, i)).collect(), 8),
         "comb5" | "comb4" | "comb6" => {
             let n: u8 = name[4..].parse().unwrap();
             let mut v = vec![];
@@ -143,12 +145,19 @@ pub fn with_rep(k: GK, rep: u8, width: u8) -> GK {
 
 impl Universe {
     pub fn new(name: &str, embed: Embed, width: u8) -> Self {
-        let (abs, depth) = abs_keys(name);
-        assert!(depth < width);
-        let mut keys: BTreeSet<GK> = abs
-            .iter()
-            .map(|a| embed_key(*a, embed, width, depth))
-            .collect();
+        let (abs, depth): (Vec<Abs>, u8) = if name == "chainW" {
+            // nested prefixes of the alternating address for EVERY length 0..=width
+            ((0..=width).map(|i| (0u32, i)).collect(), width)
+        } else {
+            abs_keys(name)
+        };
+        assert!(depth < width || (embed == Embed::Hi && depth == width));
+        let mut keys: BTreeSet<GK> = if name == "chainW" {
+            let pat: u128 = 0xAAAA_AAAA_AAAA_AAAA_AAAA_AAAA_AAAA_AAAA;
+            abs.iter().map(|a| (pat & mask128(a.1), a.1)).collect()
+        } else {
+            abs.iter().map(|a| embed_key(*a, embed, width, depth)).collect()
+        };
         if embed != Embed::Hi {
             keys.insert((0, 0));
         }
